@@ -214,6 +214,9 @@ def replay(cex):
     if k == "w":
         from engine import wrun
         return wrun.replay_generic(cex)
+    if k == "ngram":
+        from checks import c12
+        return c12.replay(cex)
     return {"reproduced": False, "how": "unknown cex kind"}
 
 
@@ -244,6 +247,10 @@ def main():
                                  bounds={"width": w, "depth": d, "K": K, "skeleton": [list(o) for o in skel]}))
     obs.append(common.Ob("witness: BMC harness reaches collisions and saturation", ob_bmc_witness, (2, 2), kind="witness", hard_s=300))
     from engine import wrun
+    from checks import c12
+    c12.mods()
+    for L, n in ((0, None), (1, None), (3, None), (3, 1), (3, 2), (4, 2)):
+        obs.append(common.Ob(f"add_ngram kernel == adds of every window: _add_ngram_linear key length {L}, ngram {'>= len (symbolic)' if n is None else n}", c12.ob_ngram, ("linear", L, n, tmo), hard_s=tmo / 1000 + 120, bounds={"key_len": L}))
     wobs, wmeta = wrun.obligations("c01", tier)
     obs += wobs
     results = common.run_obligations(obs, progress=os.environ.get("VERIF_VERBOSE") == "1")
